@@ -934,6 +934,11 @@ public:
             f["isref"] = F->getType()->isReferenceType();
             f["l"] = locStr(F->getLocation());
             f["canon"] = trunc(F->getType().getCanonicalType().getAsString(PP), 300);
+            if (F->hasInClassInitializer() && F->getInClassInitializer()
+                && !F->getInClassInitializer()->isValueDependent()) {
+                elemOf.clear(); curRoot = nullptr;
+                f["init"] = expr(F->getInClassInitializer());
+            }
             {
                 QualType FT = F->getType().getNonReferenceType().getCanonicalType();
                 if (auto* FRD = FT->getAsCXXRecordDecl())
